@@ -326,6 +326,10 @@ func runCheck(id, tier, repo string, seed int, writeBaseline bool) int {
 			}
 			notes = append(notes, "unreachable path (dead code or infeasible under the precondition): "+ob.Name+" at "+ob.Pos)
 		}
+		if ob.Kind == "cover" && ob.Status != "failed" && ob.Status != "discharged" {
+			fmt.Fprintf(os.Stderr, "engine error: vacuity guard %s could not be run: %s\n", ob.Name, ob.Solver)
+			return 3
+		}
 	}
 	var violations []string
 	var knownLines []string
